@@ -1,6 +1,7 @@
 import DadiVerif.Lemmas.Mass
 import DadiVerif.Lemmas.Marginal2
 import DadiVerif.Lemmas.Pivots
+import DadiVerif.Lemmas.Marginal3
 /-!
 # C04 — mass leaves only via fixation/loss; frozen marginals exact; frozen+migration rejected
 
@@ -247,6 +248,32 @@ theorem C04_isolated_marginal_2D : type_of% @marginal_2D_pop0_integrate := @marg
 /-- the same without any pivot hypothesis for the isolated population and the 1-D system (ν > 0, dt > 0 suffice: the neutral
     scheme is an M-matrix); only population 2, whose parameters are arbitrary, keeps its hypothesis -/
 theorem C04_isolated_marginal_2D_nopiv : type_of% @marginal_2D_pop0_integrate_nopiv := @marginal_2D_pop0_integrate_nopiv
+
+/-! ### The general instance: any number of populations d ≤ 5, any subset S (Lemmas/Marginal3.lean)
+
+`GIdx d xs = Fin d → Fin xs.size` is a valid d-dimensional multi-index, `idxL f` its list form (what `sweepFn`/`ND.get` take),
+`idxS inS f` its restriction to the axes in S (renumbered in order).  `MargInv xs inS d T U` says: for every S-index that is
+neither all-zero nor all-one, the trapezoid sum of T over the populations outside S equals U there. -/
+
+/-- the invariant, unfolded (so that the statement below can be read without the lemma file) -/
+theorem C04_isolated_marginal_invariant_def (xs : Array ℚ) (inS : ℕ → Bool) (d : ℕ) (T U : List ℕ → ℚ) :
+    MargInv xs inS d T U ↔
+      ∀ f0 : GIdx d xs, NonCornerS inS f0 → ∑ f : GIdx d xs, wS inS f0 f * T (idxL f) = U (idxS inS f0) := Iff.rfl
+
+/-- **one full time step, any d ≤ 5 and any S**: with the S-populations neutral, without immigration, with the same sizes, frozen
+    flags and injection switches in both systems, and the other populations arbitrary (selection, dominance, migration *from* S,
+    only their pivots assumed), the isolated-marginal invariant survives `sweepFn` of the d-system paired with `sweepFn` of the
+    |S|-system -/
+theorem C04_isolated_marginal_general_step : type_of% @margInv_step := @margInv_step
+
+/-- …whole integrations with constant parameters (same step rule in both systems) -/
+theorem C04_isolated_marginal_general_integrate : type_of% @margInv_integrate := @margInv_integrate
+
+/-- …with time-dependent parameters -/
+theorem C04_isolated_marginal_general_integrateFn : type_of% @margInv_integrateFn := @margInv_integrateFn
+
+/-- …and at the array level (`ND` densities, the tabulated `sweep` the correspondence runs) -/
+theorem C04_isolated_marginal_general_nd : type_of% @margInv_integrate_nd := @margInv_integrate_nd
 
 /-- non-vacuity: a strictly increasing 4-point grid is `GridOk`; a line with one interior other-coordinate is non-corner -/
 example : GridOk #[0, 1/4, 1/2, 1] := by
